@@ -182,6 +182,11 @@ def check(ctx):
     m1.caught("SwOneShot", "C17_quick.cfg")
     traces = traces_for(ctx.seed, ctx.pick(400, 6000), ctx.pick(9, 14))
     bad, ms = judge(ctx, "Mon_C17", traces + crowd_traces(), "eventgroup histories", payload)
+    # "a per-destination session id": one endpoint subscribed to two eventgroups of the service (judged by the session-id monitor of C08)
+    from . import c08
+    two = c08.two_group_traces()
+    bad2, ms2 = judge(ctx, "Mon_C08", two, "two eventgroups, one subscriber", lambda tr: {"mode": "two_groups", "sched": tr["sched"], "trace": tr["ev"][-60:]})
+    bad, ms = bad + bad2, ms + ms2
     from .common import spec_to_code
 
     def replay_x(sched):
@@ -212,6 +217,12 @@ def check(ctx):
 
 def replay(ctx, rep):
     p = rep["payload"]
+    if p.get("mode") == "two_groups":
+        from . import c08
+        tr = {"cfg": {"dsts": c08.DSTS, "maxId": 65535}, "ev": monpass.add_adv(c08.run_notify([tuple(s) for s in p["sched"]])), "sched": p["sched"]}
+        bad, _ = judge(ctx, "Mon_C08", [tr], "replay", lambda t: p)
+        print("replay: %s" % ("violation reproduced" if bad else "no violation on the current tree"))
+        return 1 if bad else 0
     qs = [i["ep"] for i in p["sched"] if str(i.get("ep", "")).startswith("q")]
     sdenv.endpoints(1 + max([int(x[1:]) for x in qs] + [0]))
     ev = run_schedule(p["sched"], p["interval"], EVENTS, {1: 7, 2: 9}, p["burn"], p.get("dns", 0))
